@@ -164,6 +164,16 @@ def unit_cmp(inj, scratch):
                             'NaiveDateTime -> TS whose and_utc().timestamp() is the wrapped i64'],
                            'Variant coercions of string literals (parse, parse_filesize, parse_datetime)')
         recs.append(r); dropped.append(d)
+    # module-level helper functions of searcher.rs that the arms call (e.g. compare_floats) are copied verbatim too
+    for helper in ['compare_floats']:
+        try:
+            hit = s.item('fn', helper)
+        except AnchorLost:
+            continue
+        ht = dedent(s.text[hit['sig_start']:hit['end']])
+        out.append(ht)
+        r, d = frag_record(helper, 'src/searcher.rs', f'fn {helper} (whole function, verbatim)', ht, ht, [], 'nothing')
+        recs.append(r)
     out.append(H('frag_cmp.kani.rs'))
     out.append('}')
     inj.new_file(FRAG_FILE, '\n'.join(out) + '\n')
